@@ -10,9 +10,13 @@ VERIF = os.path.dirname(os.path.dirname(os.path.abspath(__file__)))
 
 NOTE = ("Trusted: Lean 4.33.0 kernel; axioms at most {propext, Classical.choice, Quot.sound} (audited per theorem on every run, "
         "sources scanned for sorry/native_decide/bv_decide/axiom); the hand-written L1 model (lean/Mctp/Model) and L2 specification "
-        "(lean/Mctp/Spec); the Rust executor, Lean driver and Python orchestrator. The model is tied to /repo's working tree only by "
-        "this check's correspondence run (differential, generator-bounded; exhaustive in-process sweeps where the domain allows; a static "
-        "inventory of the code's state-carrying constructs compared with the model's context). Modelled, not verified: Rust slice/index/cast/overflow "
+        "(lean/Mctp/Spec); the Rust executor, Lean driver and Python orchestrator. The model is tied to /repo's working tree by "
+        "this check's correspondence run (differential, generator-bounded, preceded by literal-directed cases and a coverage-guided libFuzzer search; "
+        "exhaustive in-process sweeps where the domain allows; a static inventory of the code's state-carrying constructs compared with the model's context) "
+        "and, for the declarative core (From<u8> conversions, length tables, enum values, bitfield! declarations, constants), by a translator that "
+        "regenerates lean/Mctp/Gen/Source.lean from rustc's MIR and the source text on every run, with theorems (lean/Mctp/Tie, checker/ties.json) that "
+        "the translated code equals the model for all inputs; trusted for that: the MIR dump, the syntactic parser checker/translate.py and the "
+        "MIR-fragment semantics lean/Mctp/Mir/Sem.lean. Modelled, not verified: Rust slice/index/cast/overflow "
         "semantics, the bitfield 0.14.0 macro expansion, smbus-pec's CRC, Cell. ")
 
 P = {
@@ -76,6 +80,9 @@ P = {
 }
 
 
+TIES = json.load(open(os.path.join(VERIF, "checker", "ties.json")))
+
+
 def main():
     args = sys.argv[1:]
     pending = "not claimed yet: its theorems are still being proved in this round (statements in lean/Mctp/Props); the correspondence check for it exists"
@@ -85,6 +92,9 @@ def main():
         if p not in claimed:
             continue
         tech, text, extra = P[p]
+        tie_mods = sorted(m.split(".")[-1] for m, t in TIES.items() if p in t["properties"])
+        if tie_mods:
+            tech += " + translator tie (source regenerated into Lean from MIR / bitfield! text, proved equal to the model: Tie." + ", Tie.".join(tie_mods) + ")"
         checks.append({
             "property_id": p,
             "quick_cmd": "bin/check %s quick" % p,
@@ -109,6 +119,7 @@ def main():
         "engines": [
             {"name": "lean-proofs+correspondence", "path": "lean, checker, harness", "serves_properties": claimed,
              "kind_free_text": "Lean 4 model (lean/Mctp/Model), specifications (lean/Mctp/Spec), theorems (lean/Mctp/Props) audited per run; "
+                               "translator tie for the declarative core (checker/translate.py -> lean/Mctp/Gen, theorems lean/Mctp/Tie, MIR semantics lean/Mctp/Mir); "
                                "differential correspondence: Rust executor on the real library vs native Lean driver on the model over one line protocol, "
                                "three-way verdict (implementation / model / specification)"},
         ],
